@@ -225,3 +225,68 @@ def gen_ops(rng, tier, ctx=None):
                     vals[n] = _sg(rng, rng.choice([1, 1, 2, _mag(rng, 1) | 1, _mag(rng, 2), _mag(rng, 3) | 1, 1 << 64, 3 * 5 * 7 * 11]))
                     if x != n: vals[x] = _sg(rng, rng.choice([0, 1, 3, 5, _mag(rng, 1), _mag(rng, 2) | 1, _mag(rng, 4)]))
                     yield "alias_invert %x %x %x 0 %s" % (r, x, n, " ".join(hx(t) for t in vals))
+    # mpz_root (root, u, nth): root = u, exact powers / power +- 1, nth = 1, 2, 3, 5, 64, beyond the bit length; exceptions
+    for r in range(4):
+        for u in range(4):
+            for _ in range(reps * 2):
+                vals = [_sg(rng, _mag(rng, rng.choice([0, 1, 1, 2, 5]))) for _ in range(4)]
+                nth = rng.choice([1, 2, 2, 3, 3, 5, 7, 64, 1000])
+                tt = _mag(rng, rng.choice([1, 1, 2]))
+                k = rng.randrange(5)
+                vals[u] = _sg(rng, _mag(rng, rng.choice([0, 1, 2, 3, big])))
+                if nth <= 7 and k < 3: vals[u] = _sg(rng, tt ** nth + [0, -1, 1][k])
+                if nth % 2 == 0 and rng.random() < 0.9: vals[u] = abs(vals[u])
+                if rng.random() < 0.02: nth = 0
+                yield "alias_root %x %x 0 %x %s" % (r, u, nth, " ".join(hx(v) for v in vals))
+    # mpz_remove (dest, src, f): dest = src, dest = f, src = f; f = 2 (scan / shift arm), f | src several times (squaring chain), f ∤ src,
+    # src = 0, f <= 1 (DIVIDE_BY_ZERO)
+    for d in range(4):
+        for sv in range(4):
+            for f in range(4):
+                for _ in range(reps):
+                    vals = [_sg(rng, _mag(rng, rng.choice([0, 1, 1, 2, 5]))) for _ in range(4)]
+                    fv = rng.choice([2, 2, 3, 6, 10, (1 << 64) + 1, _mag(rng, 1) | 1, _mag(rng, 2)])
+                    if rng.random() < 0.04: fv = rng.choice([0, 1, -1, -3])
+                    vals[f] = fv
+                    if sv != f:
+                        vals[sv] = _sg(rng, abs(fv) ** rng.choice([0, 1, 2, 3, 5, 8]) * _mag(rng, rng.choice([0, 1, 1, 2, 3])))
+                    yield "alias_remove %x %x %x 0 %s" % (d, sv, f, " ".join(hx(v) for v in vals))
+    # mpz_bin_ui (r, n, k): r = n, n negative, n < k, k = 0, 1, small and medium
+    for r in range(4):
+        for n in range(4):
+            for _ in range(reps * 2):
+                vals = [_sg(rng, _mag(rng, rng.choice([0, 1, 1, 2, 5]))) for _ in range(4)]
+                k = rng.choice([0, 1, 2, 3, 5, 10, 30, 31, 64, 100])
+                vals[n] = rng.choice([_sg(rng, _mag(rng, rng.choice([0, 1, 2, 3]))), rng.randrange(0, 2 * k + 2), -rng.randrange(0, 40), k, k + 1])
+                yield "alias_bin_ui %x %x 0 %x %s" % (r, n, k, " ".join(hx(v) for v in vals))
+    # mpf_floor / mpf_ceil / mpf_trunc (r, u): r = u with limbs below the radix point (all zero: no adjustment; non-zero: +-1 with carry),
+    # fraction only, integer only, all-ones integer part (carry into a new limb), long operands under a lowered precision;
+    # mpf_mul_2exp / mpf_div_2exp (r, u, cnt): whole limbs, bit counts, carry out, in place on long operands; mpf_ui_div (r, ui, v): r = v
+    def fopi(prec=None):
+        prec = prec if prec is not None else rng.choice([2, 2, 3, 4, 6])
+        n = rng.choice([0, 1, 1, 2, prec, prec + 1, prec + 2, 2 * prec + 1])
+        limbs = rand_limbs(rng, n, rng.choice(["uniform", "runs", "ones", "sparse"])) if n else []
+        e = rng.choice([0, 1, 2, -1, n - 1, n, n + 1, n // 2]) if n else 0
+        if n:
+            if limbs[-1] == 0: limbs[-1] = 1
+            k = rng.randrange(6)
+            fr = max(0, min(n, n - e))
+            if k == 0:
+                for i in range(fr): limbs[i] = 0
+            elif k == 1:
+                for i in range(fr, n): limbs[i] = (1 << 64) - 1
+            elif k == 2 and fr:
+                for i in range(fr): limbs[i] = 0
+                limbs[rng.randrange(fr)] = rng.choice([1, 1 << 63])
+            if limbs[-1] == 0: limbs[-1] = 1
+        size = n if rng.random() < 0.5 else -n
+        return "%x %s %s %s" % (prec, hx(size), hx(e), vec(limbs))
+    for r in range(3):
+        for u in range(3):
+            for _ in range(reps * 4):
+                fn = rng.choice(["ffloor", "fceil", "ftrunc"])
+                yield "alias_%s %x %x 0 0 %s %s %s" % (fn, r, u, fopi(), fopi(), fopi())
+                cnt = rng.choice([0, 1, 63, 64, 65, 127, 128, 130, rng.randrange(0, 400)])
+                yield "alias_%s %x %x 0 %x %s %s %s" % (rng.choice(["fmul_2exp", "fdiv_2exp"]), r, u, cnt, fop(), fop(), fop())
+                ui = rng.choice([0, 1, 2, 7, 1 << 63, (1 << 64) - 1, rng.getrandbits(rng.randrange(1, 65)) | 1])
+                yield "alias_fui_div %x 0 %x %x %s %s %s" % (r, u, ui, fop(), fop(), fop())
